@@ -43,7 +43,7 @@ def run(ctx):
         except Exception:  # noqa
             pass
     uniq = list({enc(x): x for x in nodes}.items())
-    cases = [(enc(v), v, w, nd) for (w, nd) in uniq for v in (VARS if ctx.thorough else [VARS[i % len(VARS)] for i in (hash(w) % 7, (hash(w) // 7) % 7)])]
+    cases = [(enc(v), v, w, nd) for (w, nd) in uniq for v in (VARS if ctx.thorough else [VARS[i % len(VARS)] for i in (common.stable_hash(w) % 7, (common.stable_hash(w) // 7) % 7)])]
     cases = list({(c[0], c[2]): c for c in cases}.values())
     common.correspond(ctx, "strip", cases, real_fn=lambda c: real_strip(c[1], copy.deepcopy(c[3])),
                       model_reqs=lambda c: driver.req("strip", c[0], c[2]),
